@@ -1552,7 +1552,10 @@ class GitTreeTransform(DiskTreeTransform):
                     try:
                         mover.rename(full_path, self._limbo_name(trans_id))
                     except TransformRenameFailed as e:
-                        if e.errno != errno.ENOENT:
+                        # Nothing there to move aside: the path does not
+                        # exist, or (ENOTDIR) one of its parents is a file
+                        # that this transform is replacing by a directory.
+                        if e.errno not in (errno.ENOENT, errno.ENOTDIR):
                             raise
                     else:
                         self.rename_count += 1
